@@ -43,6 +43,7 @@ var variants = []variant{
 	{Name: "multi-entry-iife-minify", Bundle: true, Minify: true, Mangle: true, Sourcemap: "inline", Format: "iife", Hashes: true},
 	{Name: "multi-entry-esm-plain", Bundle: true, Metafile: true, Format: "esm", Legal: "linked"},
 	{Name: "no-bundle-mangle", Minify: true, Mangle: true, Metafile: true, Format: "esm"},
+	{Name: "multi-entry-esm-minify", Bundle: true, Minify: true, Metafile: true, Format: "esm"},
 }
 
 type schedule struct {
@@ -290,6 +291,13 @@ func runGlue(r *Rng, st *Stats, n int, tier string) {
 	for i := 0; i < nSib; i++ {
 		projects = append(projects, scenarioSharedFailingImport(r))
 	}
+	nCSS := 3
+	if tier == "thorough" {
+		nCSS = 8
+	}
+	for i := 0; i < nCSS; i++ {
+		projects = append(projects, scenarioCSSLayers(r))
+	}
 	// the minimal replay of finding C08-G4
 	projects = append(projects, &project{Kind: "shared-failing-import", Errors: true, Entries: []string{"src/a.js", "src/b.js"}, Files: map[string]string{
 		"src/a.js": "import './data.xyz'\n", "src/b.js": "\n\nimport   './data.xyz'\n", "src/data.xyz": "x"}})
@@ -311,6 +319,9 @@ func runGlue(r *Rng, st *Stats, n int, tier string) {
 		}
 		if projects[i].Kind == "shared-failing-import" {
 			a, b = 0, 4 // bundling variants
+		}
+		if projects[i].Kind == "css-shared-layers" {
+			a, b = 4, 6 // several entry points, no splitting, no cross-entry naming state
 		}
 		projVariants[i] = []int{a, b}
 	}
@@ -356,6 +367,15 @@ func runGlue(r *Rng, st *Stats, n int, tier string) {
 		}
 	}
 	runPool(refJobs, 16, 1)
+	// each entry point linked alone must give the same files as in the multi-entry build
+	for i, p := range projects {
+		if p.Kind != "css-shared-layers" {
+			continue
+		}
+		for _, v := range projVariants[i] {
+			checkEntriesAlone(st, rootsA[i], p, variants[v])
+		}
+	}
 	if dump := os.Getenv("VERIF_C08_DUMP"); dump != "" {
 		os.MkdirAll(dump, 0o755)
 		for _, j := range refJobs {
@@ -482,4 +502,47 @@ func stripImporterLocated(out string) string {
 		sb.WriteByte('\n')
 	}
 	return sb.String()
+}
+
+// Without code splitting the entry points are linked independently: the files
+// produced for one entry point in a multi-entry build must be byte-identical
+// to the files of a build of that entry point alone.  (Checked several times:
+// a race between the per-entry linkers shows up here even when it happens to
+// be the same in the reference build and in the compared build.)
+func checkEntriesAlone(st *Stats, root string, p *project, v variant) {
+	filesOf := func(entries []string) map[string]string {
+		q := *p
+		q.Entries = entries
+		res := api.Build(buildOptions(root, &q, v, schedule{Procs: 16, Location: "A"}))
+		m := map[string]string{}
+		for _, f := range res.OutputFiles {
+			m[strings.ReplaceAll(f.Path, root, "<ROOT>")] = string(f.Contents)
+		}
+		return m
+	}
+	alone := map[string]string{}
+	for _, e := range p.Entries {
+		for path, c := range filesOf([]string{e}) {
+			alone[path] = c
+		}
+	}
+	prev := runtime.GOMAXPROCS(0)
+	defer runtime.GOMAXPROCS(prev)
+	for rep := 0; rep < 6; rep++ {
+		runtime.GOMAXPROCS([]int{16, 4, 2, 1, 8, 3}[rep])
+		all := filesOf(p.Entries)
+		st.Note("entries-alone/"+v.Name, fmt.Sprint(root, rep), true)
+		for path, want := range alone {
+			got, ok := all[path]
+			if ok && got == want {
+				continue
+			}
+			_, w, g := firstDiff(want, got)
+			st.Fail("entry-output-depends-on-other-entry-points", map[string]interface{}{
+				"scenario": p.Kind, "project": p, "options": v, "output_file": path, "gomaxprocs": []int{16, 4, 2, 1, 8, 3}[rep],
+				"note": "the multi-entry build (no code splitting) and the build of this entry point alone give different bytes for this file",
+			}, g, w)
+			return
+		}
+	}
 }
